@@ -22,3 +22,20 @@ MODULES = {"C05": ["QuillModel.Props.C05"], "C06": ["QuillModel.Props.C06"], "C0
 OBLIG = ["QuillModel.Obligations.BackendB"]
 OBLIG_BY_PROP = {"C05": ["QuillModel.Obligations.BackendB_C05", "QuillModel.Obligations.BackendB_Common"], "C06": ["QuillModel.Obligations.BackendB_C06", "QuillModel.Obligations.BackendB_C05", "QuillModel.Obligations.BackendB_Common"],
                  "C09": ["QuillModel.Obligations.BackendB_C09", "QuillModel.Obligations.BackendB_Common"]}
+# w2_prog: progress under concurrent frontend activity (Props/C06Progress.lean)
+THEOREMS["C06"] += ["Backend.C06_poll_pops_unless_batch_guard", "Backend.C06_flush_not_overtaken",
+                    "Backend.C06_flush_log_returns_concurrent", "Backend.C06_batch_guard_starves"]
+MODULES["C06"] += ["QuillModel.Props.C06Progress"]
+THEOREMS["C06"] += ["Backend.C06_nothing_older_arrives", "Backend.C06_flush_log_returns_concurrent_explicit"]
+# w2_prog: C09 under concurrent frontend activity (Props/C09Progress.lean)
+THEOREMS["C09"] += ["Backend.C09_retry_granted_once_queue_read", "Backend.C09_pass_reads_every_ripe_queue"]
+MODULES["C09"] += ["QuillModel.Props.C09Progress"]
+THEOREMS["C09"] += ["Backend.C09_blocked_queue_drains", "Backend.C09_blocked_call_resumes_concurrent"]
+THEOREMS["C06"] += ["Backend.C06_flush_log_returns_concurrent_retry"]
+MODULES["C06"] += ["QuillModel.Props.C09Progress"]
+# lift round (w2_lifts): C05 on the observable event log (Props/C05Write.lean, helpers Backend/LiftOrder.lean)
+THEOREMS["C05"] += ["Backend.C05_writes_follow_pops", "Backend.C05_write_is_of_popped", "Backend.C05_write_order",
+                    "Backend.C05_write_order_at_sink", "Backend.C05_write_order_pairs", "Backend.PA.InvO.closed"]
+MODULES["C05"] += ["QuillModel.Props.C05Write"]
+THEOREMS["C06"] += ["Backend.C06_flush_log_returns_concurrent_total"]
+THEOREMS["C06"] += ["Backend.C06_flush_not_overtaken_grace0", "Backend.C06_flush_log_returns_concurrent_explicit_grace0"]
